@@ -19,7 +19,9 @@ SrcPaths == { <<Step("A")>>, <<Step("A2")>>, <<Step("B")>>, <<Step("N")>>, <<Ste
               <<Step("D"), Step("In"), Step("Y")>>, <<Call("Ge"), Step("X")>>, <<Step("a")>>,
               \* paths that leave the setup file's package: members the generated package cannot see, and one it can
               <<Step("Q"), Step("w")>>, <<Step("Q"), Call("w2")>>, <<Step("H"), Step("In"), Step("w")>>, <<Step("H"), Step("In"), Step("V")>>,
-              <<Step("_")>> }
+              <<Step("_")>>,
+              \* a getter with a pointer receiver on a member (addressable) and on another getter's result (not)
+              <<Step("N"), Call("Pw")>>, <<Call("N3"), Call("Pw")>>, <<Call("N3"), Step("X")>> }
 ConvSrc  == { <<Step("A")>>, <<Step("B")>>, <<Step("N")>>, <<Step("N"), Step("X")>>, <<Call("Gi")>>, <<Call("Ge")>>, <<Step("Nope")>> }
 DollarPaths == { <<Dollar(1), Step("A")>>, <<Dollar(2)>>, <<Dollar(2), Step("X")>>, <<Dollar(3)>>, <<Dollar(9)>>, <<Dollar(2), Step("Nope")>> }
 ArgSets == { <<"int">>, <<"ArgS">>, <<"int", "string">> }
@@ -41,7 +43,7 @@ MapNotes(d)  == {MapN(s, p) : s \in SrcPaths, p \in Targets(d)} \cup {MapN(<<Ste
 ConvNotes(d) == {ConvN(f, s, p) : f \in DOMAIN WFuncs, s \in ConvSrc, p \in Targets(d) \ {<<"Nowhere">>, <<"I", "Y">>, <<"Z">>}}
                 \cup {ConvN("CvII", <<Step("A2")>>, p) : p \in CaseVariants(d)}
 \* literal text is the user's responsibility (garbage belongs to C14): only literals that are well typed for the target
-LitFor(t) == CASE t = "int" -> {"7", "1+2"} [] t = "string" -> {"\"lit\""} [] t = "bool" -> {"true"} [] t = "NONE" -> {"7"} [] t = "NIn" -> {"NIn{X: 7}"} [] OTHER -> {}
+LitFor(t) == CASE t = "int" -> {"7", "1+2"} [] t = "string" -> {"\"lit\"", "\"$5.00 and ${x} and $name\""} [] t = "bool" -> {"true"} [] t = "NONE" -> {"7"} [] t = "NIn" -> {"NIn{X: 7}"} [] OTHER -> {}
 LitNotes(d)  == UNION {{LitN(p, t) : t \in LitFor(TypeAt(d, p))} : p \in Targets(d) \cup {<<"N", "W">>}}
                 \cup {LitN(p, "7") : p \in CaseVariants(d)}
 DollarNotes(d) == {MapN(s, p) : s \in DollarPaths, p \in Targets(d) \cap {<<"A">>, <<"C">>, <<"N", "X">>, <<"S">>}}
